@@ -504,6 +504,16 @@ pub fn run(thorough: bool) -> Report {
             (vec!["0 X = X + 1", "10 IF X < 2 THEN 0", "18446744073709551615 PRINT X"], vec![0, 10, 0, 10, 18446744073709551615], vec![("Use of undeclared variable 'X'.", 0)]),
             (vec!["0 GOSUB 2", "1 END", "2 RETURN"], vec![0, 2, 1], vec![]),
             (vec!["0 GOSUB 2: X = 1", "1 END", "2 RETURN"], vec![0, 2, 0, 1], vec![]),
+            // thousands of records waiting to be collected
+            (vec!["10 FOR I=1 TO 1200", "20 X=X+1", "30 NEXT I", "40 PRINT X"], {
+                let mut t = vec![10u64];
+                for _ in 0..1200 {
+                    t.push(20);
+                    t.push(30);
+                }
+                t.push(40);
+                t
+            }, vec![("Use of undeclared variable 'X'.", 20)]),
             (vec!["10 FOR I=1 TO 3", "20 Y = Q", "30 NEXT I"], vec![10, 20, 30, 20, 30, 20, 30], vec![("Use of undeclared variable 'Q'.", 20), ("Use of undeclared variable 'Q'.", 20), ("Use of undeclared variable 'Q'.", 20)]),
         ];
         let mut acc = Acc::default();
@@ -525,7 +535,7 @@ pub fn run(thorough: bool) -> Report {
                     let r = guarded(|| {
                         let _ = s.it.start_evaluating("RUN");
                         let mut n = 0;
-                        while s.it.get_state() == abasic_core::InterpreterState::Running && n < 200 {
+                        while s.it.get_state() == abasic_core::InterpreterState::Running && n < 6000 {
                             let _ = s.it.continue_evaluating();
                             n += 1;
                         }
@@ -546,7 +556,7 @@ pub fn run(thorough: bool) -> Report {
                     (t, w)
                 } else {
                     let mut none = std::iter::empty();
-                    let _ = s.run_line("RUN", &mut none, 200);
+                    let _ = s.run_line("RUN", &mut none, 6000);
                     (
                         s.recs.iter().filter_map(|r| if let Rec::Trace(l) = r { Some(*l) } else { None }).collect(),
                         s.recs.iter().filter_map(|r| if let Rec::Warning(m, l) = r { Some((m.clone(), *l)) } else { None }).collect(),
